@@ -11,7 +11,7 @@
 From Coq Require Import List ZArith Bool Arith Lia.
 Import ListNotations.
 Require Import DH.C16_Stoppers.Model DH.C16_Stoppers.Lemmas DH.C16_Stoppers.LemmasInv DH.C16_Stoppers.LemmasMain
-  DH.C16_Stoppers.Check DH.C16_Stoppers.LemmasRefuted DH.C16_Stoppers.LemmasDefaults.
+  DH.C16_Stoppers.Check DH.C16_Stoppers.LemmasRefuted DH.C16_Stoppers.LemmasDefaults DH.C16_Stoppers.LemmasFrame.
 Open Scope Z_scope.
 
 (* reach = states of protocol runs from n fresh evaluations *)
@@ -130,6 +130,21 @@ Theorem C16_model_passes_monitor : forall p, wf p -> kind p <> KMedianOld -> for
   proto p s ops = true -> monitor p (mview s) (num_full s) (model_trace p s ops) i = [].
 Proof. exact model_passes_monitor. Qed.
 Print Assumptions C16_model_passes_monitor.
+
+(* frame: an operation of evaluation j changes neither the stopper state nor the metadata of any other evaluation
+   (every state, no protocol needed) *)
+Theorem C16_frame : forall p s o j', target o <> j' -> nth_error (fst (step p s o)) j' = nth_error s j'.
+Proof. exact step_frame. Qed.
+Print Assumptions C16_frame.
+
+(* several searches on one storage ([mstep]: an operation is addressed to (search, evaluation)): what search k does
+   and decides after ANY interleaved history is what the single-search machine does on the operations addressed to
+   k alone - so every theorem above holds per search *)
+Theorem C16_search_isolation : forall p ss mops k s, nth_error ss k = Some s ->
+  nth_error (mrun_state p ss mops) k = Some (run_state p s (project k mops)) /\
+  forall o, snd (mstep p (mrun_state p ss mops) (k, o)) = snd (step p (run_state p s (project k mops)) o).
+Proof. exact search_isolation. Qed.
+Print Assumptions C16_search_isolation.
 
 (* ---------- non-vacuity ---------- *)
 Definition pA : params := mkP KAsha 9 1 3 0 0 0 1 0 1.      (* SuccessiveHalvingStopper(max_steps=9), epsilon 0 *)
